@@ -1020,7 +1020,8 @@ def roundtrip_oracle(G_, case, raw, impl, model, stats):
                 yield ("inverse", cls, "%s: %r before setup, %r after unsetup" % (k, x0.get(k), x2.get(k)), i + 1)
         left = [f for f in ra["shell_defs"] if f not in rb["shell_undefs"]]
         if left:
-            yield ("inverse_aliases", "D17" if G_.reach([a["name"]]) & cyc else None, "functions still defined: %r" % left, i + 1)
+            yield ("inverse_aliases", "D33" if d33 else ("D17" if G_.reach([a["name"]]) & cyc else None),
+                   "functions still defined: %r" % left, i + 1)
 
 
 def add_gadget(rng, g):
